@@ -130,6 +130,30 @@ func (vt *Model) csi(csi string, params [][]int) {
 	}
 }
 
+// splitWide is called before the cells from col on are erased or moved away from
+// the cell left of col. If that cell holds a wide character, col is its right
+// half: a wide character can't be shown in parts, so it goes away entirely
+func (vt *Model) splitWide(r row, col column) {
+	if col <= 0 || int(col) >= vt.width() {
+		return
+	}
+	left := &vt.activeScreen[r][col-1]
+	if left.Width > 1 {
+		left.Grapheme = " "
+		left.Width = 1
+	}
+}
+
+// trimWide removes a wide character whose right half was pushed over the right
+// margin
+func (vt *Model) trimWide(r row) {
+	last := &vt.activeScreen[r][vt.margin.right]
+	if last.Width > 1 {
+		last.Grapheme = " "
+		last.Width = 1
+	}
+}
+
 // Returns a single parameter from a slice of parameters, or 0 if the slice is
 // empty
 func ps(params [][]int) int {
@@ -149,12 +173,14 @@ func (vt *Model) ich(ps int) {
 	col := vt.cursor.col
 	row := vt.cursor.row
 	line := vt.activeScreen[row]
+	vt.splitWide(row, col)
 	for i := vt.margin.right; i > col; i -= 1 {
 		if (i - column(ps)) < 0 {
 			continue
 		}
 		line[i] = line[i-column(ps)]
 	}
+	defer vt.trimWide(row)
 	for i := 0; i < ps; i += 1 {
 		if int(col)+i >= (vt.width() - 1) {
 			break
@@ -323,6 +349,7 @@ func (vt *Model) ed(ps int) {
 	// completely erased lines.
 	case 0:
 		vt.lastCol = false
+		vt.splitWide(vt.cursor.row, vt.cursor.col)
 		for r := vt.cursor.row; r < row(vt.height()); r += 1 {
 			for col := column(0); col < column(vt.width()); col += 1 {
 				if r == vt.cursor.row && col < vt.cursor.col {
@@ -338,6 +365,7 @@ func (vt *Model) ed(ps int) {
 	// for all completely erased lines.
 	case 1:
 		vt.lastCol = false
+		vt.splitWide(vt.cursor.row, vt.cursor.col+1)
 		for r := row(0); r <= vt.cursor.row; r += 1 {
 			for col := column(0); col < column(vt.width()); col += 1 {
 				if r == vt.cursor.row && col > vt.cursor.col {
@@ -365,6 +393,12 @@ func (vt *Model) ed(ps int) {
 func (vt *Model) el(ps int) {
 	r := vt.cursor.row
 	vt.lastCol = false
+	switch ps {
+	case 0:
+		vt.splitWide(r, vt.cursor.col)
+	case 1:
+		vt.splitWide(r, vt.cursor.col+1)
+	}
 	switch ps {
 	// Erases from the cursor to the end of the line, including the cursor
 	// position. Line attribute is not affected.
@@ -491,6 +525,11 @@ func (vt *Model) dch(ps int) {
 		ps = 1
 	}
 	row := vt.cursor.row
+	vt.splitWide(row, vt.cursor.col)
+	if next := vt.cursor.col + column(ps); next <= vt.margin.right {
+		// the first character which remains
+		vt.splitWide(row, next)
+	}
 	for col := vt.cursor.col; col <= vt.margin.right; col += 1 {
 		if col+column(ps) > vt.margin.right {
 			vt.activeScreen[row][col].erase(vt.cursor.Style.Background)
@@ -512,6 +551,10 @@ func (vt *Model) ech(ps int) {
 		ps = 1
 	}
 
+	vt.splitWide(vt.cursor.row, vt.cursor.col)
+	if next := vt.cursor.col + column(ps); next < column(vt.width()) {
+		vt.splitWide(vt.cursor.row, next)
+	}
 	for i := column(0); i < column(ps); i += 1 {
 		if vt.cursor.col+i == column(vt.width()) {
 			return
